@@ -6,7 +6,7 @@ IDS="C01 C02 C03 C06 C07 C08 C09 C10 C11 C12 C13 C14 C15 C16 C17 C18 C19 C20"
 for P in "$@"; do
   echo "##### $P"
   S=$(mktemp -d /tmp/rfc.XXXXXX)
-  rsync -a --exclude target --exclude .git /repo/ $S/
+  git -C /repo archive HEAD | tar -x -C $S   # committed HEAD, not the working tree (mutation tools may be touching it)
   (cd $S && patch -p1 -s < "$P") || { echo "does not apply"; rm -rf $S; continue; }
   # warm the fact cache once, then evaluate the rules in parallel
   (cd /verif && LLG_REPO=$S python3 -c "
